@@ -65,10 +65,12 @@ struct id_map
 {
     std::vector<T> const* weights;
     bool* bad;
+    bool* not_enabled; // the selected channel is missing from the list of enabled channels the integrator hands to the map
     T operator()(std::size_t channel, std::vector<T> const& rn, std::vector<T>& coords,
         std::vector<std::size_t> const& enabled, std::vector<T>& dens, hep::multi_channel_map action)
     {
         if (channel >= weights->size() || !((*weights)[channel] > T(0))) { *bad = true; }
+        if (std::find(enabled.begin(), enabled.end(), channel) == enabled.end()) { *not_enabled = true; }
         if (action == hep::multi_channel_map::calculate_densities)
         {
             for (auto ch : enabled) { dens[ch] = T(1); }
@@ -136,6 +138,39 @@ void run_t(vf::Ctx& c)
         }
     }
     bool near_boundary = true; // the block above always probes values within 2 lattice steps
+
+    // the same weights as small integers, scaled by exact powers of two down to the smallest normal and into the subnormal
+    // range: every normalised cumulative sum is the same number, so every selection is the same
+    {
+        T mx = T(0);
+        for (auto x : w) { mx = std::max(mx, x); }
+        std::vector<T> wa(n), wb(n), wc(n);
+        for (std::size_t i = 0; i != n; ++i)
+        {
+            wa[i] = w[i] > T(0) ? std::max(T(1), std::floor(w[i] / mx * T(1000))) : T(0);
+            wb[i] = wa[i] * std::numeric_limits<T>::denorm_min();
+            wc[i] = wa[i] * std::numeric_limits<T>::min();
+        }
+        hep::discrete_distribution<std::size_t, T> da(wa.begin(), wa.end()), db(wb.begin(), wb.end()), dc(wc.begin(), wc.end());
+        std::vector<T> sums(n);
+        std::partial_sum(wa.begin(), wa.end(), sums.begin());
+        std::vector<long double> us = {0.0L, static_cast<long double>(std::nextafter(T(1), T(0))), 0.5L};
+        for (std::size_t i = 0; i != n; ++i)
+        {
+            T const b = sums[i] / sums[n - 1];
+            for (T u : {b, std::nextafter(b, T(0)), std::nextafter(b, T(2))}) { if (u >= T(0) && u < T(1)) { us.push_back(static_cast<long double>(u)); } }
+        }
+        for (long double u : us)
+        {
+            T seen;
+            std::size_t const ia = select<T>(da, u, seen, c), ib = select<T>(db, u, seen, c), ic = select<T>(dc, u, seen, c);
+            ++c.sub;
+            VF_CHECK(c, ib < n && ic < n, "C09:index-range", "weights " << vf::show(wa) << " times denorm_min / min: u=" << vf::show(seen) << " selected index " << ib << " / " << ic << " of " << n);
+            VF_CHECK(c, wa[ib] > T(0) && wa[ic] > T(0), "C09:disabled-selected", "weights " << vf::show(wa) << " times denorm_min / min: u=" << vf::show(seen) << " selected a channel of weight zero");
+            VF_CHECK(c, ia == ib && ia == ic, "C09:scale-invariance", "weights " << vf::show(wa) << ": u=" << vf::show(seen) << " selects channel " << ia << ", after scaling all weights by denorm_min channel "
+                << ib << ", by the smallest normal number channel " << ic);
+        }
+    }
 
     // random canonical values
     std::size_t const nrand = t.range(0, 64);
@@ -215,7 +250,7 @@ void run_t(vf::Ctx& c)
             T const b = sums[i] / sums[n - 1];
             if (b < T(1)) { add_call(static_cast<long double>(b)); }
         }
-        bool bad_map = false;
+        bool bad_map = false, not_enabled = false;
         bool bad_integrand = false;
         std::vector<T> const* wp = &w;
         auto f = [&bad_integrand, wp](hep::multi_channel_point<T> const& p) -> T {
@@ -223,10 +258,11 @@ void run_t(vf::Ctx& c)
             return T(1);
         };
         vf::script_engine eng(script);
-        auto integrand = hep::make_multi_channel_integrand<T>(f, 1, id_map<T>{&w, &bad_map}, 1, n);
+        auto integrand = hep::make_multi_channel_integrand<T>(f, 1, id_map<T>{&w, &bad_map, &not_enabled}, 1, n);
         auto const res = hep::multi_channel_iteration(integrand, calls, w, eng);
         c.sub += calls;
         VF_CHECK(c, !bad_map, "C09:iteration-map-disabled", "multi_channel_iteration asked the map for a disabled or invalid channel");
+        VF_CHECK(c, !not_enabled, "C09:iteration-selected-not-enabled", "multi_channel_iteration selected a channel that is missing from the list of enabled channels it hands to the map");
         VF_CHECK(c, !bad_integrand, "C09:iteration-integrand-disabled", "multi_channel_iteration handed the integrand a disabled or invalid channel");
         VF_CHECK(c, res.calls() == calls, "C09:iteration-calls", "calls " << res.calls());
         c.label("in-iteration");
